@@ -570,6 +570,33 @@ def filter_rewrite_failures(ctx, samples) -> list[tuple[str, str]]:
     return bad
 
 
+def prefix_redraw_failures(ctx) -> list[str]:
+    """The drawn prefix must not be one that names of the rule's detection map already start with: such a name would be
+    overwritten (same name) or captured by the filter's own patterns (`them` → `<prefix>_*`). apply_on_rule is interpreted
+    with a random stand-in that returns x…x first and y…y afterwards."""
+    from ..tabulate import Raised
+    problems = []
+    scenarios = [
+        ("the rule owns a detection with the drawn prefix and the filter detection's name", "flt", {"sel": "D(sel)", "_filt_xxxxxxxxxx_flt": "D(own)"}),
+        ("the rule owns a detection with the drawn prefix under another name (an earlier filter drew the same prefix)", "1 of them", {"sel": "D(sel)", "_filt_xxxxxxxxxx_other": "D(own)"}),
+        ("another name, filter condition by pattern", "not 1 of f*", {"sel": "D(sel)", "_filt_xxxxxxxxxx_f0": "D(own)"}),
+    ]
+    for what, cond, dets in scenarios:
+        try:
+            rule_, filt_ = interpret_filter_application(ctx, cond, rule_detections=dets, draws=("x", "y"))
+        except Raised as ex:
+            problems.append(f"{what}: raises {ex}")
+            continue
+        got = rule_.detection.detections
+        own = [k for k in dets if k.startswith("_filt_")][0]
+        new = [k for k in got if k not in dets]
+        if got.get(own) != "D(own)":
+            problems.append(f"{what}: the rule's detection {own} is overwritten ({got.get(own)})")
+        elif any(k.startswith("_filt_xxxxxxxxxx_") for k in new):
+            problems.append(f"{what}: the colliding prefix is kept (new detections {new}); the filter's patterns '_filt_xxxxxxxxxx_*' then capture {own}, which is not a detection of this filter — the converted query depends on the random draw")
+    return problems
+
+
 def r6_filter_condition_rewrite(ctx) -> None:
     """A filter's condition is spliced into the rule's condition as text: its detections are renamed with a drawn prefix
     and the condition text is rewritten token by token. The rewriting must classify the words like the grammar does:
